@@ -226,7 +226,7 @@ func (s *Sim) LeaseLoss(tok string) ([]string, error) {
 		go func() { woke <- w.S.waitParked(s.nProcs) }()
 		select {
 		case <-woke:
-		case <-time.After(3 * time.Second):
+		case <-time.After(400 * time.Millisecond): // waking on a cancelled context takes microseconds; generous even on a loaded machine
 			w.S.mu.Lock()
 			w.S.parked[role] = p
 			w.S.current = ""
